@@ -367,6 +367,39 @@ func gen(g *core.G) {
 		g.Emit("gen " + s(lg.Ty(1+g.Rng.Intn(4))))
 	}
 
+	// ---- (2a) chains built on purpose (lat/chains.go) as arguments of commonType — related pairs through the aliases, Structs, Iterable —
+	// and types that hold Unit below the top: a failure there must be classified as the known finding C04-common-unit (class
+	// common-not-bound-unit), never as anything else
+	lg.Alias, lg.NoUnit = false, true
+	chains := append(append(lg.AliasChains(400*g.Scale), lg.StructChains(300*g.Scale)...), lg.IterChains(300*g.Scale)...)
+	for i, tr := range chains {
+		g.Emit("common " + s(tr.B) + " " + s(tr.A))
+		g.Emit("common " + s(tr.C) + " " + s(tr.B))
+		if i%2 == 0 {
+			g.Emit("common " + s(tr.A) + " " + s(tr.C))
+		}
+		g.Emit("gen " + s(tr.B))
+		if w, ok := lg.Witness(tr.C); ok {
+			g.Emit("infer " + s(tr.A) + " " + w.String())
+		}
+	}
+	units := lg.UnitNested(600 * g.Scale)
+	for i, t := range units {
+		g.Emit("gen " + s(t))
+		o := lg.Ty(1 + g.Rng.Intn(2))
+		switch i % 4 {
+		case 0:
+			o = units[(i*7+3)%len(units)]
+		case 1:
+			o = lg.Narrow(t)
+		}
+		g.Emit("common " + s(t) + " " + s(o))
+		g.Emit("common " + s(o) + " " + s(t))
+		// the shape of the recorded witness: two Tuples, a Unit-holding member in one slot
+		g.Emit("common " + s(lat.Tup([]lat.Ty{lg.Leaf(), lg.Leaf()})) + " " + s(lat.Tup([]lat.Ty{t, lg.Leaf()})))
+	}
+	lg.NoUnit = false
+
 	// ---- (3) malformed stream (implementation only) ----------------------------------------------------------------
 	odd := []string{"(int 2 1)", "(var str)", "(struct (x f str))", "(obj 3)", "(enum t x41)", "(arr any 3 1)"}
 	for i := 0; i < 200; i++ {
